@@ -744,9 +744,11 @@ func (i *interpreter) checkIndex(idx *Term, signed bool, n int) {
 	ts := i.ts
 	var ok *Term
 	if signed {
-		ok = ts.And(ts.Cmp(opSLe, ts.Const(idx.w, 0), idx), ts.Cmp(opSLt, idx, ts.Const(idx.w, uint64(n))))
+		x := ts.SExt(idx, 64)
+		ok = ts.And(ts.Cmp(opSLe, ts.Const(64, 0), x), ts.Cmp(opSLt, x, ts.Const(64, uint64(n))))
 	} else {
-		ok = ts.Cmp(opULt, idx, ts.Const(idx.w, uint64(n)))
+		x := ts.ZExt(idx, 64)
+		ok = ts.Cmp(opULt, x, ts.Const(64, uint64(n)))
 	}
 	if !i.truth(boolV(ok)) {
 		i.rtPanic(fmt.Sprintf("index out of range [symbolic] with length %d", n))
@@ -773,6 +775,9 @@ func (i *interpreter) symIndexAddr(cells []value, idx *Term, signed bool) value 
 
 func (i *interpreter) iteChain(idx *Term, n int, at func(k int) *Term) *Term {
 	ts := i.ts
+	if idx.w < 64 && uint64(n-1) > mask(idx.w) {
+		n = int(mask(idx.w)) + 1 // cells beyond the index type's range are unreachable
+	}
 	acc := at(n - 1)
 	for k := n - 2; k >= 0; k-- {
 		acc = ts.Ite(ts.Cmp(opEq, idx, ts.Const(idx.w, uint64(k))), at(k), acc)
